@@ -59,6 +59,8 @@ def next_token(text, prev=None):
             current_token = f(text, prev=prev)
             if current_token is not None:
                 return current_token
+            if not text.hasNext():  # a tokenizer consumed the rest silently
+                break
 
 
 @to_buffer()
@@ -232,7 +234,8 @@ def tokenize_ignore(text, prev=None):
     >>> print(*tokenize(categorize('\x00hello')))
     hello
     """
-    while text.peek().category in (CC.Ignored, CC.Invalid):
+    while text.hasNext() and \
+            text.peek().category in (CC.Ignored, CC.Invalid):
         text.forward(1)
 
 
